@@ -6,6 +6,11 @@ variants with Bezout, symbols, roots, primality) are class C: compared with thei
 evaluated in Lean on every correspondence run, not modelled.
 -/
 import RelicVerif.Lemmas.Rec
+import RelicVerif.Props.C09Gcd
+import RelicVerif.Props.C09Mxp
+import RelicVerif.Props.C09Smb
+import RelicVerif.Props.C09Mod
+import RelicVerif.Props.C09Pol
 
 namespace Relic.Props.C09
 open Relic.Model.Rec
